@@ -21,19 +21,20 @@ def c13(ctx: Ctx):
         ctx.tlc("MC_C13", "MC_C13.cfg", label="D BodyStream L2 => body readable")
         ctx.tlc("MC_C13", "MC_C13_pinned.cfg", expect_violation=True, label="D pinned-model counterexample (restore missing)")
         ctx.tlc("Gen_C13", "Gen_C13.cfg", label="D WithDefaults fixed point + F generate cases")
+        ctx.tlc("Gen_C13H", "Gen_C13H_%s.cfg" % ("thorough" if ctx.tier == "thorough" else "quick"), label="F generate histories (%s)" % ctx.tier)
         n = ctx.unquote(ctx.spec("cases.ndjson"), cases)
         log("[gen] %d cases" % n)
         ctx.exhaustive = True
     ctx.build_driver()
     logp = os.path.join(ctx.scratch, "log.ndjson")
-    ctx.drive(cases, logp)
+    ctx.drive(cases, logp, shards=8 if ctx.tier == "thorough" else 4)
     rng = random.Random(ctx.seed)
     for l in open(logp):
         o = json.loads(l)
-        ctx.evaluations += 2
+        ctx.evaluations += len([st for st in o["c"]["steps"] if st["op"] == "V"]) if o["c"]["kind"] == "hist" else 2
         ctx.nontrivial.add(casehash(o["c"]))
         if rng.random() < 6.0 / 800:
-            ctx.samples.append({k: o.get(k) for k in ("c", "verdict1", "after1", "q1", "verdict2")})
+            ctx.samples.append({k: o.get(k) for k in ("c", "verdict1", "after1", "q1", "verdict2", "obs") if k in o})
     ctx.rule = ("product of spec/Gen_C13.tla: 9 body schemas with defaults (flat, nested, object default with nested default, allOf, oneOf, anyOf with "
                 "nested defaults in both branches, array items, readOnly, default next to a failing constraint) x bodies x 6 security/callback "
                 "behaviours x preset GetBody x SkipSettingDefaults; + parameter defaults (query/header/cookie x int/str/array x explode) x present "
